@@ -14,13 +14,16 @@ import (
 	"crypto/x509"
 	"crypto/x509/pkix"
 	"encoding/binary"
+	"errors"
 	"fmt"
+	"github.com/refraction-networking/uquic/internal/protocol"
 	"math/big"
 	"net"
 	"runtime"
 	"sort"
 	"strings"
 	"sync"
+	"syscall"
 	"testing"
 	"testing/synctest"
 	"time"
@@ -279,6 +282,9 @@ func (w *World) SendPacket(p simnet.Packet) error {
 		w.raw[dir] = append(w.raw[dir], p.Data)
 	}
 	w.bytes[dir] += int64(len(p.Data))
+	if len(p.Data) > 1300 && len(rec.Pkts) > 0 && rec.Pkts[0].Type == Tap1RTT {
+		w.Res.Probe("pmtud:1rtt-datagram-above-1300-bytes")
+	}
 	w.trace = KMix(w.trace, uint64(now), uint64(dir), uint64(len(p.Data)), rec.Hash)
 	if w.OnSend != nil {
 		w.OnSend(rec, p.Data)
@@ -496,6 +502,38 @@ func (w *World) Stop() {
 	}
 }
 
+// Path MTU discovery only runs on sockets on which the library can set the don't-fragment bit, which it finds out through
+// SyscallConn(): the simulated sockets answer with the raw connection of one real (never used) loopback UDP socket of the
+// process, so that setting the option succeeds and DPLPMTUD probes, MTU raises and black-holed probes are part of every
+// simulated connection (unless the scenario's Config disables discovery).
+type wDFConn struct{ *simnet.SimConn }
+
+var wRealRaw = func() syscall.RawConn {
+	c, err := net.ListenUDP("udp4", &net.UDPAddr{IP: net.IPv4(127, 0, 0, 1)})
+	if err != nil {
+		return nil
+	}
+	rc, err := c.SyscallConn()
+	if err != nil {
+		return nil
+	}
+	return rc
+}()
+
+func (c wDFConn) SyscallConn() (syscall.RawConn, error) {
+	if wRealRaw == nil {
+		return nil, errors.New("no real socket available")
+	}
+	return wRealRaw, nil
+}
+
+func wDF(c *simnet.SimConn) net.PacketConn {
+	if wRealRaw == nil {
+		return c
+	}
+	return wDFConn{c}
+}
+
 // wDrained polls (in simulated time) until none of the transports holds anything any more - no connection ID routed to a
 // connection or to a closed-connection handler, no stateless-reset token - or until bound has passed; it returns what is
 // left ("" = drained). Read through the overlay accessor quic.VerifTransportTables.
@@ -656,11 +694,11 @@ func NewNodes(w *World, cfg *WConfig) (*Nodes, error) {
 	n.QLog[0], n.QLog[1] = &wQLog{w: w}, &wQLog{w: w}
 	n.CQ.Tracer = func(context.Context, bool, quic.ConnectionID) qlogwriter.Trace { return n.QLog[0] }
 	n.SQ.Tracer = func(context.Context, bool, quic.ConnectionID) qlogwriter.Trace { return n.QLog[1] }
-	n.STr = &quic.Transport{Conn: n.SConn, ConnectionIDLength: cfg.ServerCIDLen}
+	n.STr = &quic.Transport{Conn: wDF(n.SConn), ConnectionIDLength: cfg.ServerCIDLen}
 	if cfg.Retry {
 		n.STr.VerifySourceAddress = func(net.Addr) bool { return true }
 	}
-	n.CTr = &quic.Transport{Conn: n.CConn, ConnectionIDLength: cfg.ClientCIDLen}
+	n.CTr = &quic.Transport{Conn: wDF(n.CConn), ConnectionIDLength: cfg.ClientCIDLen}
 	switch cfg.Client {
 	case "", "plain":
 	case "unil":
@@ -759,6 +797,10 @@ func wHash(b []byte) uint64 {
 // wBegin prepares per-run global state; wEnd restores it.
 func wBegin(cfg *WConfig) {
 	monotime.VerifSetStart(time.Now().Add(-time.Hour))
+	// (drawn from crypto/rand, which the kernel has seeded for this run)
+	var vb [16]byte
+	rand.Read(vb[:])
+	protocol.VerifSeedVersionNegotiation(binary.BigEndian.Uint64(vb[:8]), binary.BigEndian.Uint64(vb[8:]))
 	if cfg.SchedNum > 0 {
 		runtime.SimSched(KMix(uint64(cfg.SchedNum), 0x5ced), cfg.SchedNum)
 	}
